@@ -198,31 +198,34 @@ def build_model(area):
 
 
 # ---------------------------------------------------------------- Go harness
-def overlay_json():
-    """maps every file under harness/go/overlay/<rel> to REPO/<rel>; returns path of overlay.json"""
-    root = os.path.join(VERIF, "harness", "go", "overlay")
+def overlay_json(roots=("overlay",)):
+    """maps every file under harness/go/<root>/<rel> to REPO/<rel> for each root; returns path of the json.
+    Separate roots (e.g. "ov_c09") keep one area's unexported-access files from breaking other drivers' builds."""
     rep = {}
-    for dp, dn, fn in os.walk(root):
-        for f in fn:
-            src = os.path.join(dp, f)
-            rel = os.path.relpath(src, root)
-            rep[os.path.join(REPO, rel)] = src
+    for r in roots:
+        root = os.path.join(VERIF, "harness", "go", r)
+        for dp, dn, fn in os.walk(root):
+            for f in fn:
+                src = os.path.join(dp, f)
+                rel = os.path.relpath(src, root)
+                rep[os.path.join(REPO, rel)] = src
     os.makedirs(BUILD, exist_ok=True)
-    tag = hashlib.sha1(REPO.encode()).hexdigest()[:8]
+    tag = hashlib.sha1((REPO + "|" + ",".join(roots)).encode()).hexdigest()[:8]
     p = os.path.join(BUILD, f"overlay-{tag}.json")
     with open(p, "w") as fh:
         json.dump({"Replace": rep}, fh, indent=0)
     return p
 
 
-def go_build(driver, pkg=None, timeout=900, module_dir=None):
+def go_build(driver, pkg=None, timeout=900, module_dir=None, roots=("overlay",), tags="verif", race=False):
     """build REPO/internal/zz_verif/<driver> (virtual, via overlay) with -tags verif. Returns (ok, exe_or_log)."""
-    ov = overlay_json()
+    ov = overlay_json(tuple(roots))
     tag = hashlib.sha1(REPO.encode()).hexdigest()[:8]
     exe = os.path.join(BUILD, "bin", f"{driver}-{tag}")
     os.makedirs(os.path.dirname(exe), exist_ok=True)
     pkg = pkg or f"./internal/zz_verif/{driver}"
-    rc, out = sh(["go", "build", "-tags", "verif", "-overlay", ov, "-o", exe, pkg], cwd=module_dir or REPO, env=goenv(), timeout=timeout)
+    cmd = ["go", "build", "-tags", tags, "-overlay", ov, "-o", exe] + (["-race"] if race else []) + [pkg]
+    rc, out = sh(cmd, cwd=module_dir or REPO, env=goenv(), timeout=timeout)
     if rc != 0:
         return False, out[-3000:]
     return True, exe
